@@ -429,8 +429,8 @@ class Engine:
             for w in live:
                 self._look(w, frames, now, seen)
                 s = seen.get(w.role)
-                if s is None or not s[2] or now - s[1] < self.HANG or now < w.not_before + self.HANG:
-                    stuck = False
+                if w.parked or s is None or not s[2] or now - s[1] < self.HANG or now < w.not_before + self.HANG:
+                    stuck = False  # (a worker still inside the engine's own park loop is never "hung")
             if stuck:
                 if not rescued:
                     run.hung = [(w.role, self._stacks(w)) for w in live]
